@@ -35,6 +35,7 @@ Next == /\ n < MaxLen /\ s.err = ""
               /\ s' = Do(s, op) /\ last' = op
               /\ ugly' = CASE Remeshes(op) -> (s'.bounds # s.bounds /\ op.op = "change") \/ (op.op = "adjust" /\ s'.psd # s.psd \o Seq0(s'.bins - s.bins))
                             [] op.op \in {"update", "load", "loadfn", "reset"} \/ (op.op = "change" /\ op.reset) -> FALSE
+                            [] op.op = "settime" -> TRUE
                             [] op.op = "revert" -> prevUgly
                             [] OTHER -> ugly
               /\ prevUgly' = IF op.op = "backup" THEN ugly ELSE prevUgly
@@ -42,6 +43,8 @@ Next == /\ n < MaxLen /\ s.err = ""
 Spec == Init /\ [][Next]_vars
 
 InvGridConsistent == s.err = "" => GridConsistent(s)
+InvRecording == RecordingSound(s)
+PropSetToLast == [][last'.op = "settime" /\ last'.t = RI(100) => SetToLastRestores(s, s')]_vars
 NoError == s.err = ""
 PropExtend == [][last'.op = "add" => ExtendKeepsPrefix(s, s')]_vars
 PropRemesh == [][(last'.op = "change" /\ ~last'.reset) \/ last'.op = "adjust" =>
